@@ -467,3 +467,22 @@ _TECH_ADDENDA = {
 }
 for _pid, _txt in _TECH_ADDENDA.items():
     PROPS[_pid]["technique"] = PROPS[_pid]["technique"] + _txt
+
+_RULE_ADDENDA_R9 = {
+    'C01': " Round 9: C01EncodeMixed lists may hold a typed nil pointer from index 1 on (refusal, or anything well-formed).",
+    'C02': " Round 9: C02Carrier also carries nbt.StringifiedMessage (root and field position, finite floats), compared by value through the independent reader.",
+    'C04': " Round 9: C04Ambig - integers with leading zeros and literals around the limits of every type (root, list element, compound value, typed-array element): accepted outcomes are a refusal, the token as a String (where a string is possible) or the DECIMAL value with the suffix's type when in range.",
+    'C06': " Round 9: C06Padded - zero-group padded VarInt/VarLong encodings alone and as first member of a Tuple: if accepted, value, reported count and stream position must agree; no strict prefix of a packet of <= 80 bytes scans (a field that reads to the end excepted).",
+    'C08': " Round 9: compressed frames whose zlib body inflates to fewer bytes than the data length declares must be refused.",
+    'C09': " Round 9: every third read-fault offset is also injected through a reader that fails ONE call (handing out nothing) and goes on delivering.",
+    'C10': " Round 9: C10Conn second pass - the peer hangs up 1..3000 bytes before the end of its last packet: complete packets arrive, then an error, never a packet.",
+    'C11': " Round 9: invalid values include values out of range only above bit 31 (1<<32|small, 1<<40, MinInt64).",
+    'C12': " Round 9: a single-entry saved palette comes with nil, empty non-nil or empty-with-capacity data.",
+    'C20': " Round 9: the lock-granularity scheduler also stops threads at Cond.Wait, Cond.Signal and Cond.Broadcast; C20Pools goroutines unpack a frame cut at a generated offset before every other iteration.",
+}
+for _pid, _txt in _RULE_ADDENDA_R9.items():
+    PROPS[_pid]["rule"] = PROPS[_pid].get("rule", "") + _txt
+for _pid, _txt in {"C04": "; spellings with several readings checked against the set of admissible readings (C04Ambig)",
+                   "C06": "; padded VarInt encodings; strict prefixes of packets",
+                   "C10": "; streams cut inside the last packet"}.items():
+    PROPS[_pid]["technique"] = PROPS[_pid]["technique"] + _txt
